@@ -831,7 +831,8 @@ def b_isinstance(interp, v, t):
         return (list in t) if isinstance(t, tuple) else (t is list)
     if isinstance(v, SCirc):
         import qiskit
-        return t is qiskit.QuantumCircuit
+        ts = t if isinstance(t, tuple) else (t,)
+        return any(x is qiskit.QuantumCircuit or (isinstance(x, type) and isinstance(v, x)) for x in ts)
     if isinstance(v, SB):
         if v.isbool:
             return t in (bool, int) or (isinstance(t, tuple) and (bool in t or int in t))
